@@ -190,7 +190,32 @@ func runC16(c *Check) {
 				continue
 			}
 			d := delivery{Send: snd, MsgType: -1, ReqTyp: -1}
-			for _, e := range dominatingEdges(snd) {
+			edges := dominatingEdges(snd)
+			// the request was picked by a search that hands out its index ("index of the match or -1"):
+			// the tests that selected it are those in force where the index was chosen
+			for _, r := range rootsAll(snd.Chan) {
+				ia, ok := r.(*ssa.IndexAddr)
+				if !ok {
+					continue
+				}
+				fi := foundIndexOf(ia.Index)
+				if fi == nil {
+					continue
+				}
+				for _, ref := range *fi.Referrers() {
+					p2, ok := ref.(*ssa.Phi)
+					if !ok {
+						continue
+					}
+					for i, e := range p2.Edges {
+						if e == fi {
+							pb := p2.Block().Preds[i]
+							edges = append(edges, dominatingEdges(pb.Instrs[len(pb.Instrs)-1])...)
+						}
+					}
+				}
+			}
+			for _, e := range edges {
 				cd := normCond(e.Iff.Cond)
 				truth := (e.Br == 0) != cd.Neg
 				// payload type switch
